@@ -16,7 +16,11 @@ RULE = ("one case = a history of 2-6 runs on one real recorder (successful, rais
         "fractional rate, runs forcing / not forcing sampling independently; a deterministic grid forced run -> [other class | "
         "replay] -> unforced run of the same class with the draw above the rate) and histories in which a recording written "
         "through the cassette API (copy of a recorded run with no / no clock / only user / full metadata) is replayed and the "
-        "recorder is used again (implementation-side only: the clock metadata is outside the model); "
+        "recorder is used again (implementation-side only: the clock metadata is outside the model); histories of a service "
+        "one of whose classes is registered with a sampling rate that is not a number (None / text / list, as an unconverted "
+        "configuration value: the end of such a run fails while comparing the draw with the rate) followed by runs of other "
+        "classes, of the same class and replays (implementation-side only: idle after every run, last run as on a fresh "
+        "recorder); "
         "non-trivial = history of >= 2 runs; distinct = distinct history")
 ASSUMPTIONS = ["the thread-local interception flag is observed on the driver thread only",
                "threads: as for C04/C05 - the methods that touch the active recording are modelled access by access "
@@ -139,9 +143,43 @@ def foreign_history(rng, meta):
                 probe_fresh=True, stream="foreign")
 
 
+RAW_RATES = ["none", "str", "str-word", "list"]      # (driver: recorder_driver.rate_of)
+
+
+def misconfigured_history(rng, raw, k):
+    """A service one of whose operation classes is registered with a sampling rate that is not a number (a configuration key
+    that is missing -> None, a value that was never converted -> text / list): the comparison of the draw with the rate
+    fails when such a run ends un-forced and un-discarded.  Whatever that run does to its caller, the recorder is idle
+    afterwards and the next runs - of other classes, of the same class - behave as on a fresh recorder."""
+    good = dict(rate=rng.choice([[1, 1], [1, 2], [0, 1]]), ignore=False, skipped=False, copy=rng.random() < 0.3)
+    bad = dict(rate=[1, 1], rate_raw=raw, ignore=rng.random() < 0.2, skipped=False, copy=rng.random() < 0.3)
+    w = dict(W, force=0.15, discard=0.15, enable=0.0)
+    runs = []
+    n = rng.randrange(3, 6)
+    for j in range(n):
+        if j in (0, 2) or (j < n - 1 and rng.random() < 0.3):
+            op = rd.rand_opdef(rng, w, budget=[0, 2, 6][(k + j) % 3], cls="OpM")
+            op["classlevel"] = k % 2 == 1
+            runs.append(dict(kind="record", enabled=True, prm=rd.clean(bad), op=op, save_fails=False))
+        elif j == 3 and runs[0]["op"]:
+            runs.append(dict(kind="play", target=rng.randrange(2), pf={"kind": "op", "op": rd.clean(runs[1]["op"])},
+                             enabled=rng.random() < 0.5))
+        else:
+            runs.append(dict(kind="record", enabled=True, prm=rd.clean(good),
+                             op=rd.rand_opdef(rng, w, budget=rng.choice([2, 6]), cls="OpA"), save_fails=False))
+    return dict(interrupt_kind=rng.choice(INTERRUPT_KINDS), draws=rd.rand_draws(rng, 12), runs=runs, cassette="memory",
+                probe_fresh=True, stream="misconfigured-rate")
+
+
+def has_raw_rate(case):
+    return any(r["kind"] == "record" and r["prm"] and r["prm"].get("rate_raw") for r in case.get("runs", []))
+
+
 def to_gallina(case, obs):     # noqa: F811
     if rc.is_race(case):
         return rc.to_gallina(case, obs)
+    if has_raw_rate(case):
+        return None            # a sampling rate that is not a number is outside the model (p_rate : Q): direct predicate only
     from props import rec_common
     t = rec_common.to_gallina(case, obs)
     return None if t is None else "H (%s)" % t
@@ -164,6 +202,9 @@ def features(case):      # noqa: F811
     if case.get("stream"):
         fs.add("stream:" + case["stream"])
     recs = [r for r in case["runs"] if r["kind"] == "record"]
+    for r in recs:
+        if r["prm"] and r["prm"].get("rate_raw"):
+            fs.add("class-registered-with-non-numeric-sampling-rate:" + r["prm"]["rate_raw"])
     for i, r in enumerate(recs):
         if r["prm"] and Fraction(*r["prm"]["rate"]) < 1 and not rd.has_stmt(r["op"]["body"], ("force",)) and any(
                 q["op"]["cls"] == r["op"]["cls"] and q["prm"] == r["prm"] and rd.has_stmt(q["op"]["body"], ("force",))
@@ -199,6 +240,9 @@ def generate(rng, tier):
     # recordings that did not come from the recorder (no / partial metadata), replayed, and the recorder used again
     for i in range(40 if tier == "quick" else 400):
         cases.append(foreign_history(rng, ["none", "no_clock", "user", "full"][i % 4]))
+    # operation classes registered with a sampling rate that is not a number (implementation side only)
+    for i in range(24 if tier == "quick" else 200):
+        cases.append(misconfigured_history(rng, RAW_RATES[i % len(RAW_RATES)], i // len(RAW_RATES)))
     return cases
 
 
@@ -244,7 +288,9 @@ MANIFEST = dict(
          "public/private flags idle after every run, and the last run repeated on a fresh recorder over the same cassette "
          "and draw position gives the identical observation. The histories include classes whose registered parameters object is "
          "shared by all their runs (forced then unforced runs of one class at a rate below 1) and replays of recordings that "
-         "did not come from the recorder (no duration metadata: play() fails after the replay state was cleared).",
+         "did not come from the recorder (no duration metadata: play() fails after the replay state was cleared), and classes "
+         "registered with a non-numeric sampling rate (the sampling decision itself raises at the end of the run: the recorder "
+         "must be idle afterwards; implementation side only).",
     note="Trusted: Coq kernel + vm_compute, hand-written model, correspondence harness. Other threads' thread-local flags are "
          "not modelled (driver thread only).",
     technique="Coq proof (invariant + induction over histories) + differential correspondence by vm_compute + fresh-recorder "
